@@ -4,9 +4,11 @@ import (
 	"fmt"
 	"math/rand"
 	"net"
+	"os"
 	"strconv"
 	"strings"
 	"sync"
+	"syscall"
 	"time"
 
 	"github.com/relex/gotils/channels"
@@ -54,6 +56,8 @@ func (f *flushComp) Generate(rng *rand.Rand, n int, emit func(Case)) {
 	// listener does at the timeout, the records must be the lines (C08_flush_single_line with the real flush placement)
 	emit(Case{Ops: []Op{{Name: "flushl pause", Ints: []int64{20, 1300}}}, Tag: "corpus"})
 	emit(Case{Ops: []Op{{Name: "flushl pause", Ints: []int64{-1, 1300}}}, Tag: "corpus"})
+	// a moment without a free file descriptor (accept: too many open files): afterwards the listener accepts as before
+	emit(Case{Ops: []Op{{Name: "flushl exhaust", Ints: []int64{150}}}, Tag: "corpus"})
 	// … and a stall that spans several consecutive read timeouts with nothing received in between
 	emit(Case{Ops: []Op{{Name: "flushl pause", Ints: []int64{40, 2900}}}, Tag: "corpus"})
 	for i := 0; i < n; i++ {
@@ -120,12 +124,14 @@ func (f *flushComp) Impl(c Case) (out []string) {
 	if len(c.Ops) == 0 {
 		return out
 	}
-	if c.Ops[0].Name == "flushl run" || c.Ops[0].Name == "flushl pause" {
+	if c.Ops[0].Name == "flushl run" || c.Ops[0].Name == "flushl pause" || c.Ops[0].Name == "flushl exhaust" {
 		for i, o := range c.Ops {
 			if o.Name == "flushl run" && len(o.Ints) == 3 {
 				out[i] = runFlushListener(o.Ints[0], o.Ints[1], o.Ints[2])
 			} else if o.Name == "flushl pause" && len(o.Ints) == 2 {
 				out[i] = runFlushPause(o.Ints[0], o.Ints[1])
+			} else if o.Name == "flushl exhaust" && len(o.Ints) == 1 {
+				out[i] = runFlushExhaust(o.Ints[0])
 			} else {
 				out[i] = "bad-op"
 			}
@@ -436,6 +442,10 @@ func (f *flushComp) Oracle(c Case, implOut []string) string {
 				return fmt.Sprintf("read %d timed out %.1f ms after it was entered: less than the flush interval of %d ms (a flush without a pause)",
 					i, float64(ob.t1-ob.t0)/1e6, m/1e6)
 			}
+		case "flushl exhaust":
+			if strings.HasPrefix(implOut[i], "exhaust BAD ") {
+				return strings.TrimPrefix(implOut[i], "exhaust BAD ")
+			}
 		case "flushl pause":
 			if j := strings.Index(implOut[i], " BAD "); j >= 0 {
 				return fmt.Sprintf("three single-line records sent with a pause of %d ms inside the second one were not received as the three lines: %s", o.Ints[1], implOut[i][j+5:])
@@ -459,6 +469,15 @@ func (f *flushComp) Oracle(c Case, implOut []string) string {
 }
 
 func (f *flushComp) Class(c Case, implOut []string) string {
+	if len(c.Ops) > 0 && c.Ops[0].Name == "flushl exhaust" {
+		if len(implOut) > 0 && strings.HasPrefix(implOut[0], "exhaust ok") {
+			return "listener-exhaust/accept-failed-then-recovered"
+		}
+		if len(implOut) > 0 && strings.HasPrefix(implOut[0], "exhaust BAD") {
+			return "listener-exhaust/stopped"
+		}
+		return "trivial:listener-exhaust-not-tried"
+	}
 	if len(c.Ops) > 0 && c.Ops[0].Name == "flushl pause" {
 		if len(implOut) > 0 && strings.HasPrefix(implOut[0], "pause ") {
 			if c.Ops[0].Ints[0] < 0 {
@@ -502,3 +521,111 @@ func min64(a, b int64) int64 {
 	}
 	return b
 }
+
+
+// runFlushExhaust: a standalone listener; a client connects at a moment at which the process has no free file descriptor
+// left (many clients at once, a burst of files being written), so that accept() fails with EMFILE for holdMs. When descriptors
+// are free again the listener must accept as before: the client that was waiting and a new one both get their records through.
+func runFlushExhaust(holdMs int64) (res string) {
+	defer func() {
+		if rec := recover(); rec != nil {
+			res = "panic " + panicKind(rec)
+		}
+	}()
+	recv := &flushRecv{closed: make(chan struct{}, 4)}
+	stop := channels.NewSignalAwaitable()
+	lsnr, addr, err := tcplistener.NewTCPLineListener(logger.WithField("verif", "flushx"), "127.0.0.1:0", syslogprotocol.TestRecordStart, &flushRecvMulti{recv}, stop)
+	if err != nil {
+		return "listen-failed"
+	}
+	lsnr.Start()
+	defer func() {
+		stop.Signal()
+		lsnr.Stopped().Wait(3 * time.Second)
+	}()
+	var old syscall.Rlimit
+	if syscall.Getrlimit(syscall.RLIMIT_NOFILE, &old) != nil {
+		return "exhaust not-tried"
+	}
+	ents, _ := os.ReadDir("/proc/self/fd")
+	lim := uint64(len(ents) + 40)
+	if lim >= old.Cur {
+		return "exhaust not-tried"
+	}
+	syscall.Setrlimit(syscall.RLIMIT_NOFILE, &syscall.Rlimit{Cur: lim, Max: old.Max})
+	restored := false
+	restore := func() {
+		if !restored {
+			syscall.Setrlimit(syscall.RLIMIT_NOFILE, &old)
+			restored = true
+		}
+	}
+	defer restore()
+	var dummies []*os.File
+	for len(dummies) < 5000 {
+		f, err := os.Open("/dev/null")
+		if err != nil {
+			break
+		}
+		dummies = append(dummies, f)
+	}
+	release := func() {
+		for _, f := range dummies {
+			f.Close()
+		}
+		dummies = nil
+	}
+	defer release()
+	if len(dummies) < 2 {
+		return "exhaust not-tried"
+	}
+	dummies[len(dummies)-1].Close() // one descriptor for the client's own socket
+	dummies = dummies[:len(dummies)-1]
+	waiting, err := net.DialTimeout("tcp", addr, 2*time.Second)
+	if err != nil {
+		return "exhaust not-tried"
+	}
+	fmt.Fprintf(waiting, "<14>1 2020-01-02T03:04:05Z h a 1 s - the record of the client that had to wait\n")
+	time.Sleep(time.Duration(holdMs) * time.Millisecond) // accept() has failed by now
+	release()
+	restore()
+	time.Sleep(200 * time.Millisecond)
+	probe, err := net.DialTimeout("tcp", addr, 2*time.Second)
+	if err != nil {
+		waiting.Close()
+		return "exhaust BAD the listener stopped accepting connections after a moment without a free file descriptor (accept: too many open files): " + err.Error()
+	}
+	fmt.Fprintf(probe, "<14>1 2020-01-02T03:04:05Z h a 1 s - the record of a client that came afterwards\n")
+	probe.Close()
+	waiting.Close()
+	deadline := time.Now().Add(3 * time.Second)
+	for time.Now().Before(deadline) {
+		recv.mu.Lock()
+		n := len(recv.msgs)
+		recv.mu.Unlock()
+		if n >= 2 {
+			return "exhaust ok records=2"
+		}
+		time.Sleep(10 * time.Millisecond)
+	}
+	recv.mu.Lock()
+	defer recv.mu.Unlock()
+	return fmt.Sprintf("exhaust BAD after a moment without a free file descriptor only %d of the 2 records sent by the waiting client and by a later one were received", len(recv.msgs))
+}
+
+// flushRecvMulti: as flushRecv, for several connections (Close of a sink does not end the observation)
+type flushRecvMulti struct{ r *flushRecv }
+
+func (m *flushRecvMulti) NewSink(addr string, num base.ClientNumber) base.MessageReceiverSink {
+	return &flushSinkMulti{m.r}
+}
+
+type flushSinkMulti struct{ r *flushRecv }
+
+func (s *flushSinkMulti) Accept(message []byte) {
+	s.r.mu.Lock()
+	s.r.msgs = append(s.r.msgs, string(message))
+	s.r.mu.Unlock()
+}
+func (s *flushSinkMulti) Flush() {}
+func (s *flushSinkMulti) Close() {}
